@@ -187,7 +187,7 @@ func (a *alphabetCtx) dkgAlphabet(keyGood, keyBad, poly []byte) []*exEvent {
 	for _, p := range ids {
 		variants := []string{"valid", "late", "empty"}
 		if p >= a.N {
-			variants = []string{"valid"}
+			variants = []string{"valid", "late"}
 		}
 		for _, v := range variants {
 			t := a.ts(v)
